@@ -1487,6 +1487,11 @@ class BinaryOperator(SymbolicExpression, ABC):
         required_vars = HashedIterable()
         if child is self.left:
             required_vars.update(self.right._unique_variables_)
+        else:
+            # the left operand may bind one of its variables for some of its results only (a disjunction whose branches
+            # mention different variables): results of the right operand that differ in such a variable are not
+            # duplicates of one another, they are looked up in the result caches under either binding.
+            required_vars.update(self.left._unique_variables_)
         if when_true or (when_true is None):
             for conc in self._conclusion_:
                 required_vars.update(conc._unique_variables_)
@@ -1855,6 +1860,8 @@ class OR(LogicalOperator, ABC):
                 for conc in self.left._conclusion_:
                     required_vars.update(conc._unique_variables_)
         elif child is self.right:
+            # (as for every binary operator) results that differ in a variable of the left operand are not duplicates
+            required_vars.update(self.left._unique_variables_)
             if when_true or (when_true is None):
                 for conc in self.right._conclusion_:
                     required_vars.update(conc._unique_variables_)
